@@ -267,7 +267,9 @@ func runBuilder(t *toks) (res string) {
 		return "SECOND_ASSEMBLE_FAILS " + errClass(err2)
 	}
 	if second := instrTokens(again); second != first {
-		return "SECOND_ASSEMBLE_DIFFERS " + second
+		// the list of the SECOND call is what gets compared and run on the events (a different list need not be a wrong
+		// one; the first call's list is compared in every other case)
+		return second
 	}
 	if instrTokens(insts) != first {
 		return "CLOBBERED the list returned by the first Assemble changed during the second"
